@@ -1,6 +1,7 @@
 package mcp
 
 import (
+	"errors"
 	"net"
 	"io"
 	"context"
@@ -45,6 +46,7 @@ type zzC11Env struct {
 	timers      map[*time.Timer]*zzTimer
 	nowPOSTRefs int
 	handler     *StreamableHTTPHandler
+	closeFails  bool // closing a session's connection reports an error (a failing EventStore.SessionClosed)
 }
 
 type zzTimer struct {
@@ -71,6 +73,9 @@ func zzTransportServe(t *StreamableServerTransport, w http.ResponseWriter, req *
 }
 func zzConnCloseStub(c *jsonrpc2.Connection) error {
 	zzC11.connCloses = append(zzC11.connCloses, c)
+	if zzC11.closeFails {
+		return errors.New("event store: session could not be released")
+	}
 	return nil
 }
 func zzConnCancelStub(c *jsonrpc2.Connection, id jsonrpc2.ID) {}
@@ -181,6 +186,7 @@ func zzC11Table() {
 		env.token = &auth.TokenInfo{UserID: "u2"}
 	}
 	env.initFails = vBool("initializeFails")
+	env.closeFails = vBool("closingTheConnectionFails")
 	w := &zzRec{hdr: http.Header{}}
 	h.ServeHTTP(w, req)
 
